@@ -47,3 +47,46 @@ func VerifC17StackView(p *profile.Profile, rawQuery, trimPath string, divideBy f
 	_, rpt, err = generateRawReport(ui.copier.newCopy(), []string{"svg"}, cfg, opt)
 	return status, page, rpt, err
 }
+
+// VerifC17Step is one request of VerifC17StackViewSeq.
+type VerifC17Step struct {
+	Status int
+	Page   string
+	Rpt    *report.Report // reference report for the same configuration, built from a pristine copy; nil if none
+	Err    error
+}
+
+// VerifC17StackViewSeq serves several GET /flamegraph?<query> requests, one after the other, through
+// ONE web interface object (the way a browser session does), so that state surviving in the
+// interface, its profile or its copier between requests becomes observable.  The reference report
+// of each request is built from a byte copy of the serialized profile taken before the first
+// request, never from the interface's own copier.
+func VerifC17StackViewSeq(p *profile.Profile, rawQueries []string, trimPath string, divideBy float64) (steps []VerifC17Step, err error) {
+	old := currentConfig()
+	defer setCurrentConfig(old)
+	mod := old
+	mod.TrimPath, mod.DivideBy = trimPath, divideBy
+	setCurrentConfig(mod)
+	opt := &plugin.Options{UI: verifC17UI{}}
+	copier := makeProfileCopier(p)
+	pristine := append(profileCopier(nil), copier...)
+	ui, err := makeWebInterface(p, copier, opt)
+	if err != nil {
+		return nil, err
+	}
+	for _, q := range rawQueries {
+		var st VerifC17Step
+		req := httptest.NewRequest("GET", "/flamegraph?"+q, nil)
+		w := httptest.NewRecorder()
+		ui.stackView(w, req)
+		st.Status, st.Page = w.Code, w.Body.String()
+		cfg := currentConfig()
+		if e := cfg.applyURL(req.URL.Query()); e != nil {
+			st.Err = e
+		} else {
+			_, st.Rpt, st.Err = generateRawReport(pristine.newCopy(), []string{"svg"}, cfg, opt)
+		}
+		steps = append(steps, st)
+	}
+	return steps, nil
+}
